@@ -145,6 +145,7 @@ def run(ctx: Ctx, rep: Report) -> None:
     rep.rule("C20-R3", "processing a datagram writes nothing to shared state except the lazily built security model", floor=3)
     rep.rule("C20-R4", "no eager recursion on the decode path", floor=1)
     rep.rule("C20-R5", "a lazily decoded SEQUENCE is walked once: no indexing / len() / .value of it inside a loop (each access re-decodes the whole value: quadratic time in the datagram size)", floor=1)
+    rep.rule("C20-R7", "no reply makes the UDP sender spin: the retry loop returns at the first reply and otherwise uses up one retry per iteration (shared with C13-R2)", floor=10)
     rep.rule("C20-R6", "a failed exchange leaves no per-datagram state behind: every store to shared state in the package is a justified, operation-independent instance (shared with C14-R1)", floor=12)
     rep.assumptions += [
         "CPython: len() >= 0, int.from_bytes(.., signed=False) >= 0, bytes.find() >= -1, slicing never reads outside the object",
@@ -310,9 +311,12 @@ def run(ctx: Ctx, rep: Report) -> None:
     # ------------------------------------------------------------ R6
     from . import c14
 
-    sub = Report(rep.prop, rep.tier)
-    c14.run(ctx, sub)
+    sub = ctx.sub_run("c14", rep)
     rep.adopt_rules(sub, "C20-R6", ["C14-R1"])
+    # the sender's retry loop: whatever the peer replies (an empty datagram included), every iteration either
+    # returns or consumes one of the `retries`
+    sub = ctx.sub_run("c13", rep)
+    rep.adopt_rules(sub, "C20-R7", ["C13-R2"])
 
     # ------------------------------------------------------------ R4
     cyc = []
